@@ -1,17 +1,17 @@
 SPECIFICATION Spec
 CONSTANTS
   N = 1
-  MaxTime = 13
+  MaxTime = 10
   MaxSkew = 1
-  Budget = 1
+  Budget = 0
   Variant = "design"
   Faults <- WriteFaults
-  MaxToggle = 3
+  MaxToggle = 2
   Removal = TRUE
   Remotes <- RemotesNone
   MaxWaits = 99
-  HistMax = 0
-  Emit = FALSE
+  HistMax = 100000
+  Emit = TRUE
   MaxAtt = 2
   Crashes = FALSE
   StartBy = 0
@@ -19,8 +19,8 @@ CONSTANTS
   HealOdds = 3
   ListLag = FALSE
   FixSkew = FALSE
-  MaxMods = 0
+  MaxMods = 1
   Edge = FALSE
 VIEW View
-INVARIANTS TypeOK InvHolderHasFile InvFresh InvNoWriteAfterCancel InvExclusion InvNotStale
+INVARIANTS TypeOK InvHolderHasFile InvFresh InvNoWriteAfterCancel InvGoal2 InvGoal3 InvGoal4 InvGoal9 InvGoal11 InvGoal12 InvGoal13
 CHECK_DEADLOCK FALSE
